@@ -166,7 +166,6 @@ def encKind : CfgKind → String
 def encExc : PyExc → String
   | .config k p => s!"exc:QMI_ConfigurationException {encKind k} {encPath p}"
   | .typeError => "exc:TypeError"
-  | .overflowError => "exc:OverflowError"
   | .valueError => "exc:ValueError"
 
 def whole {α : Type} (r : Option (α × List String)) : Option α :=
